@@ -29,11 +29,14 @@ prop(
         "rten_tensor::overlap::is_contiguous",
         "rten_tensor::layout::NdLayout::<N>::from_shape_and_strides (DisallowOverlap), N=1..4",
         "rten_tensor::layout::is_valid_permutation",
+        "rten_tensor::tensor::TensorBase::<Vec<u8>, NdLayout<2>>::{has_capacity, expanded_layout} (capacity expansion)",
     ],
     bounds=("soundness: concrete shape family (ranks 1-3 quick, +rank 4 thorough; sizes 1..4), strides fully "
             "symbolic 64-bit, both indices symbolic; emptiness: shapes with a 0 dim, strides symbolic; "
             "completeness: contiguous parent of concrete shape, child sizes concrete, per-axis step symbolic 1..7 "
-            "(window inside parent), every axis permutation; unwind 10"),
+            "(window inside parent), every axis permutation; huge concrete shapes (element counts >= 2^64, e.g. [2,2^63,2], "
+            "[2^32,2^32], [usize::MAX]) with symbolic strides and the corner indices {0,1,size-2,size-1} of each axis; "
+            "capacity expansion of 2x2/3x1/2x3 owned tensors with spare capacity, symbolic axis and new size <= 8; unwind 10-20"),
     outside=("ranks > 4, sizes > 4 (rank<=3) / > 3 (rank 4), DynLayout's SmallVec path (same generic function, "
              "instantiated for [usize;N] here), reshape-derived layouts (reshape of a contiguous layout is "
              "contiguous, covered by the step=1 case), TensorBase::expanded_layout (calls the same function)"),
@@ -52,12 +55,24 @@ prop(
     title="Loading untrusted model bytes is safe, bounded and well-formed",
     groups=[
         dict(crate="rten-model-file", prefix="c05", jobs=4),
+        dict(crate="rten", prefix="c05", jobs=8, timeout_quick=1200, timeout_thorough=7200),
     ],
-    functions=["rten_model_file::header::Header::from_buf", "rten_model_file::header::Header::to_buf"],
-    bounds="files of 0..48 symbolic bytes (from_buf reads only the first 32); unwind 6/34",
-    outside="FlatBuffers verifier, ONNX graph construction, mmap",
-    assumptions=[],
-    explanation="Bounded model checking of the .rten header parser over every byte string up to 48 bytes.",
+    functions=[
+        "rten_model_file::header::Header::from_buf / to_buf",
+        "rten::model::rten_loader::constant_data_from_storage_offset::<u8|i32> (rank 1-2)",
+        "rten::model::rten_loader::constant_data_from_flatbuffers_vec::<u8> (rank 1-2)",
+        "rten::model::onnx_loader::tensor_from_elements::<i32>, tensor_from_bytes::<i32> (rank 2)",
+        "shared: TensorBase::try_from_data / Layout::min_data_len (C06), the protobuf readers (C38)",
+    ],
+    bounds=("header: files of 0..48 symbolic bytes (from_buf reads only the first 32); .rten constants: 16-byte file buffer, "
+            "shape of rank 1-2 and byte offset fully symbolic 64-bit; inline constants: 4-element FlatBuffers vector, shape "
+            "of rank 1-2 fully symbolic; ONNX initializers: data of 0..4 i32 / 0..8 bytes, rank-2 shape fully symbolic; "
+            "unwind 6-34"),
+    outside=("the FlatBuffers verifier (third party), ONNX/rten graph construction (hash maps, strings), mmap, constants of "
+             "rank > 2 (each further dim adds one symbolic product), element types other than u8/i32"),
+    assumptions=["the claim for whole-file loading = these leaf checks + C06 (constructors) + C38 (protobuf); the composition is argued"],
+    explanation=("Bounded model checking of the places where untrusted sizes enter: the .rten header, constant "
+                 "shape/offset arithmetic of both loaders, and the tensor constructors they end in."),
 )
 
 prop(
@@ -143,4 +158,200 @@ prop(
     explanation=("Bounded model checking of the protobuf primitive readers: termination of read_varint by unwinding "
                  "assertions, agreement with a reference varint decoder, and overflow-free, exact length validation "
                  "for every 64-bit position/length combination."),
+)
+
+prop(
+    "C09",
+    title="Layout transformations match a reference array model",
+    groups=[dict(crate="rten-tensor", prefix="c09", jobs=12, timeout_quick=1200, timeout_thorough=7200)],
+    functions=[
+        "layout::slice_layout via NdLayout<1|2>::slice::<M> (index items, ranges with negative/open ends, positive steps)",
+        "slice_range::SliceRange::{new, resolve, resolve_clamped, clamp, index_range, step}, IndexRange::{new, steps}",
+        "NdLayout<3>::{permuted, transposed}, layout::is_valid_permutation",
+        "NdLayout<2> -> NdLayout<3> BroadcastLayout::broadcast, layout::broadcast_strides, Layout::can_broadcast_to",
+        "NdLayout<3>::{split, slice_axis, index_axis}, Layout::min_data_len",
+        "NdLayout<2>::insert_dim, NdLayout<3>::remove_dim, Layout::reshaped_for_view / reshaped_for_copy",
+        "layout::merge_axes",
+    ],
+    bounds=("parents of concrete shape (rank 1-3, sizes <= 5) with contiguous, transposed or stepped strides; slice items fully "
+            "symbolic (index or range, start/end/step in (-2^40, 2^40); full isize range for the rank-1 thorough harness); "
+            "symbolic permutation, broadcast target (dims <= 4), axis, split point, slice_axis bounds (full usize), index; "
+            "strides symbolic < 2^20 for the axis operations and merge_axes; one transformation per harness; unwind 8"),
+    outside=("element copying (copy_into_slice, to_contiguous, append, clip_dim): heap-buffer loops, not encoded; DynLayout "
+             "variants (SmallVec; slice_layout, broadcast_strides and merge_axes are shared generic code); chains of more than "
+             "one transformation beyond the non-contiguous parents; negative steps (rejected at layout level, handled by the "
+             "Slice operator); slice::<M> with M smaller than the number of kept dims panics (loud, not silent)"),
+    assumptions=[
+        "start/end/step magnitudes < 2^40 in the quick tier: stride*step and -index-1 overflow only beyond that "
+        "(dev-profile panics on absurd arguments, not silent loss)",
+        "the reference model is NumPy-style index algebra written in the harness (model_item): reviewed by hand",
+    ],
+    explanation=("Bounded model checking of each layout transformation against the nested-array model reduced to index "
+                 "algebra: acceptance/rejection, output shape, and the offset of a symbolic output element."),
+)
+
+prop(
+    "C23",
+    title="The buffer pool hands out each buffer once with adequate capacity",
+    groups=[dict(crate="rten", prefix="c23", jobs=8, timeout_quick=1500, timeout_thorough=7200)],
+    functions=[
+        "buffer_pool::Buffer::{from_vec, can_fit, layout_match, into_vec, release, drop}",
+        "buffer_pool::BufferPool::{new, with_min_size, add, alloc, len}",
+    ],
+    bounds=("pool pre-state: two pooled buffers with concrete element types and capacities from a family (u32x16, u32x24, u64x8, "
+            "[u16;2]x16, u8x16, u8x64, f32x8, i16x32, ...), min_size 16/32 bytes; one alloc::<T>(req) step with symbolic "
+            "req <= 64 for T in {f32, i64, u32, i8, u8, i16}; Buffer round trips for 4 type pairs; unwind 6"),
+    outside=("symbolic capacities (ran out of memory at 33 GB), more than two pooled buffers, histories longer than one step, "
+             "thread interleavings (all pool state is behind one Mutex, so each interleaving equals a sequential order of "
+             "steps: argued, not solved), PoolRef/ExtractBuffer wrappers"),
+    assumptions=[
+        "lock atomicity: BufferPool state is a Mutex<Vec<Buffer>>, every access is a critical section",
+        "Kani's allocator model: distinct live allocations have distinct addresses; deallocation checks size/alignment match",
+    ],
+    explanation=("Bounded model checking of one pool step from a family of concrete pool states: capacity, layout "
+                 "compatibility, best fit, no double hand-out, and (through CBMC's allocation checks on drop) each buffer "
+                 "freed exactly once with the layout it was allocated with."),
+)
+
+prop(
+    "C26",
+    title="Invalid run requests are reported as errors",
+    groups=[dict(crate="rten", prefix="c26", jobs=8, timeout_quick=900, timeout_thorough=7200)],
+    functions=[
+        "graph::planner::CachedPlan::{new, matches}",
+        "graph::planner::first_duplicate_by",
+    ],
+    bounds=("cached id lists of 1-3 inputs / 1-2 outputs (thorough: 3x3, 4x2), ids symbolic < 6, duplicate free (a plan is cached "
+            "only after create_plan succeeded); request lists of the same lengths fully symbolic (duplicates allowed), plus a "
+            "length-mismatch harness; first_duplicate_by on <= 4 symbolic ids; unwind 6-10"),
+    outside=("Graph::validate_inputs (dtype/rank/dimension checks), Planner::create_plan's node-kind checks and Model::run "
+             "argument handling: all walk Graph (hash maps, Arc<dyn Operator>), measured out of reach"),
+    assumptions=[
+        "a cache hit for a request that is not a permutation of the cached ids is the violation: such a request skips "
+        "create_plan's duplicate/kind checks and run_plan panics (confirmed natively through Graph::run)",
+    ],
+    explanation=("Bounded model checking of the plan-cache gate that stands between Graph::run and the planner's request "
+                 "validation: a request hits the cache iff it is a permutation of the cached duplicate-free id lists."),
+)
+
+prop(
+    "C18",
+    title="SIMD instruction sets agree and stay within slice bounds",
+    groups=[dict(crate="rten-simd", prefix="c18", jobs=6, timeout_quick=1200, timeout_thorough=7200)],
+    functions=[
+        "functional::simd_map (in place and src->uninit dest), functional::simd_apply::<_, _, _, 2>",
+        "arch::generic GenericIsa i32/u8: load_ptr, store_ptr, first_n_mask, load_ptr_mask, store_ptr_mask, splat, "
+        "and/or/xor/not, min/max, eq/ge/gt, select, shift_left/right, add (non-overflowing)",
+    ],
+    bounds=("slice lengths 0..=9 (simd_map, i32 x4), 0..=14 (simd_apply unroll 2, i32), 0..=18 (u8 x16, thorough); element "
+            "values fully symbolic; guard elements on both sides of the slice; unwind 6-20"),
+    outside=("AVX2 / AVX-512 / NEON / WASM instruction sets (intrinsics and inline asm: not executable by CBMC), so the "
+             "cross-ISA clause is only decided as 'generic = scalar definition'; float operations and NaN payload rules; "
+             "rten-vecmath kernels; integer add/sub/mul on overflowing inputs (generic uses +,-,* which panic in the dev "
+             "profile and wrap in release like the x86 kernels)"),
+    assumptions=["cfg(kani) makes rten_simd::dispatch return the generic ISA (hook)"],
+    explanation=("Bounded model checking of the shared vector-body/masked-tail logic and of the portable ISA's integer "
+                 "primitives against their scalar definitions, with CBMC's pointer checks deciding that nothing outside "
+                 "the slice is read or written."),
+)
+
+prop(
+    "C27",
+    title="Byte-level BPE tokenization round-trips and reports consistent offsets",
+    groups=[dict(crate="rten-text", prefix="c27", jobs=4, timeout_quick=900)],
+    functions=["models::bpe::byte_to_char", "models::bpe::is_printable"],
+    bounds="complete for the 256-entry table (two symbolic bytes); unwind 258",
+    outside=("everything else in the statement: char_to_byte is a HashMap, encode/decode go through fancy-regex and "
+             "FxHashMap vocabularies, offsets through the tokenizer pipeline"),
+    assumptions=["decode inverts byte_to_char through a HashMap built from the same table (not encoded)"],
+    explanation=("Bounded model checking of the byte<->char table that the round-trip rests on: injective, printable, "
+                 "identity on printable bytes."),
+)
+
+prop(
+    "C29",
+    title="Chunked encoding respects limits and partitions the token stream",
+    groups=[dict(crate="rten-text", prefix="c29", jobs=4, timeout_quick=900, timeout_thorough=3600)],
+    functions=["split::SliceExt::chunks_with_overlap", "split::OverlappingChunks::next", "split::SliceExt::subslice_offsets"],
+    bounds=("slice length 0..=6 (8 thorough), chunk size 1..=len+1 and overlap < chunk size, all symbolic; unwind 9-11"),
+    outside=("Tokenizer::encode_chunks (tokenizer: regex + hash maps) including its special-token accounting and final-offset "
+             "computation; overlap >= chunk size (documented assert/panic)"),
+    assumptions=["overlap < chunk_size (the function asserts it)"],
+    explanation=("Bounded model checking of the chunking kernel: contiguous windows of bounded length, stride "
+                 "chunk_size-overlap, complete in-order coverage, no empty or superfluous chunk."),
+)
+
+prop(
+    "C31",
+    title="Logit filters implement their contracts for all inputs",
+    groups=[dict(crate="rten-generate", prefix="c31", jobs=8, timeout_quick=1200, timeout_thorough=7200)],
+    functions=[
+        "filter::TopK::filter, filter::SimdTopK::eval::<GenericIsa> (scalar set-up, vector body for n > k+4, tail)",
+        "filter::TopP::filter (normalize(false)), Logits::{dense, sparse, into_logits_indices}",
+    ],
+    bounds=("(n, k) concrete per harness: n in 0..=4 and k in 0..=4 incl. k<n, k=n, k>n (thorough: n=6,7 reach the vector "
+            "body); logits symbolic f32 bit patterns (ordinary = no NaN, no -0.0; all-bits variants include them); TopP: "
+            "n in 1..=3 (4 thorough), probabilities and p symbolic in [0,1]; chain TopP->TopK on 2 candidates; unwind 6-10"),
+    outside=("softmax normalisation inside TopP (exp), AVX paths, Temperature/token-id filters, n > 7"),
+    assumptions=["cfg(kani) dispatches to the generic ISA", "TopP inputs are probabilities in [0,1] without NaN"],
+    explanation=("Bounded model checking of the filters against their contracts stated as predicates over the output: "
+                 "count, sub-multiset of the input pairs, descending order, nothing dropped exceeds anything kept "
+                 "(IEEE total order), shortest prefix reaching the threshold, non-empty."),
+)
+
+prop(
+    "C33",
+    title="Samplers choose only valid candidates",
+    groups=[dict(crate="rten-generate", prefix="c33", jobs=6, timeout_quick=2400, timeout_thorough=10800)],
+    functions=["sampler::ArgMax::sample", "sampler::multinomial", "fastrand::Rng::{with_seed, f32} (real generator, symbolic seed)"],
+    bounds=("ArgMax: n in {1,3} (5 thorough) symbolic non-NaN scores and symbolic sparse ids; multinomial: n = 2 (4 "
+            "thorough) probabilities symbolic in [0,1], the 64-bit seed fully symbolic (so every draw the real generator "
+            "can produce first is covered); unwind 4-8"),
+    outside=("the softmax in Multinomial::sample and its unwrap_or(0) fallback when the probability mass rounds below the "
+             "draw; draws after the first of a seed"),
+    assumptions=["no NaN scores for ArgMax"],
+    explanation=("Bounded model checking of the samplers: arg-max returns the id of a maximal score; multinomial, with the "
+                 "real random generator seeded symbolically, never returns an index of zero probability and is a function of the seed."),
+)
+
+prop(
+    "C36",
+    title="Contour tracing and drawing stay on the image",
+    groups=[dict(crate="rten-imageproc", prefix="c36", jobs=6, timeout_quick=1200, timeout_thorough=7200)],
+    functions=["drawing::clamp_to_bounds", "drawing::BreshamPoints::{new, next}", "drawing::draw_line (width 1)",
+               "drawing::fill_rect", "drawing::stroke_rect (thorough)"],
+    bounds=("images 1x1, 2x3, 4x4 (0x0, 5x3 thorough) zero-filled u8; line endpoints symbolic over all of i32 x i32; "
+            "Bresenham lines with coordinates in [-3,3]; fill_rect/stroke_rect rectangles symbolic inside a 3x3 (4x4 "
+            "thorough) image, border width fitting the rectangle; unwind 4-18"),
+    outside=("find_contours, wide lines and polygon filling (float geometry), rectangles partly outside the image "
+             "(fill_rect does no clipping: bounds-checked indexing panics, nothing outside is modified)"),
+    assumptions=["stroke_rect border width <= half the rectangle (its documented bounding-box behaviour needs it)"],
+    explanation=("Bounded model checking of the drawing primitives: every index is inside the image (a bounds-check "
+                 "panic would be reported) and exactly/only the pixels of the shape are modified."),
+)
+
+prop(
+    "C21",
+    title="External tensor data cannot escape the model directory or its file bounds",
+    groups=[dict(crate="rten", prefix="c21", jobs=4, timeout_quick=2400, timeout_thorough=14400)],
+    functions=["model::external_data::is_allowed_external_data_path", "std::path::Path::{components, extension} (as compiled)"],
+    bounds=("every location string of 0..=6 symbolic bytes (7 and 8 thorough) plus 12 fixed longer locations (traversal, "
+            "nesting, absolute, Windows-style, split-file names); unwind 10-24"),
+    outside=("the offset/length checks of MemLoader/MmapLoader/FileLoader: they sit behind a HashMap<String,_> lookup or real "
+             "files (hash maps measured out of reach; I/O); locations longer than 8 bytes other than the fixed ones"),
+    assumptions=["Unix path semantics (the build target)"],
+    explanation=("Bounded model checking of the path predicate that gates every external-data loader, against a byte-level "
+                 "model of 'a single plain data filename directly in the model directory'."),
+)
+
+prop(
+    "C39",
+    title="CTC decoding returns distinct, correctly scored hypotheses",
+    groups=[dict(crate="rten", prefix="c39", jobs=4, timeout_quick=2400, timeout_thorough=14400)],
+    functions=["ctc::CtcDecoder::decode_greedy", "ops::reduce::arg_max / select_max_index (f32, axis 1)", "ctc::CtcHypothesis::{steps, score}"],
+    bounds="[T, L] matrices with (T,L) in {(2,2),(3,2)} (thorough: (2,3),(3,3)), symbolic non-NaN f32 entries; unwind 8-10",
+    outside="beam search (exp/ln in log_sum_exp, HashMap merge table), NaN log-probabilities, larger matrices",
+    assumptions=["label path compared only when every row has a unique maximum; the score (sum of row maxima) is compared always"],
+    explanation=("Bounded model checking of greedy CTC decoding, through the real arg-max reduction kernel, against the "
+                 "collapsed arg-max path and the bit-exact left-to-right f32 sum."),
 )
